@@ -476,7 +476,7 @@ def diagonal(x, offset=0, dim1=0, dim2=1):
     return x._view(shape, fwd, inv, contiguous=False)
 
 
-def _slice_params(sl: slice, n):
+def _slice_params(sl, n):
     """python slice semantics on a dimension of (symbolic) size n -> (start, length, step)"""
     step = 1 if sl.step is None else sl.step
     cs = concrete(step) if not isinstance(step, builtins.int) else step
@@ -724,7 +724,7 @@ def getitem(x, index):
         if i is None:
             cur = unsqueeze(cur, d)
             d += 1
-        elif isinstance(i, slice):
+        elif isinstance(i, slice) or type(i).__name__ == "SymSlice":
             start, length, step = _slice_params(i, cur.shape[d])
             if not (i.start is None and i.stop is None and i.step is None):
                 cur = _slice_view(cur, d, start, length, step)
@@ -794,6 +794,15 @@ def _check_index_bounds(t, size):
     """torch raises IndexError iff some index entry is outside [-size, size).  Returns True when the
     in-range fact had to be *assumed* on this path (then it is instantiated lazily at every read)."""
     c = sym.ctx()
+    if builtins.all(isinstance(d, builtins.int) for d in t.shape) and t.numel() <= 4:
+        # small concrete index tensor: decide on the actual entries (quantifier-free, consistent across calls)
+        conds = []
+        for pos in itertools.product(*[range(d) for d in t.shape]):
+            v = t.at(*[z3.IntVal(p) for p in pos])
+            conds.append(z3.Or(v < -ix(size), v >= ix(size)))
+        if c.decide(z3.Or(*conds) if conds else z3.BoolVal(False)):
+            raise IndexError("index out of range in self")
+        return False
     ks = [z3.Int(c.fresh_name(f"k{j}!idx")) for j in range(t.dim())]
     inb = t.in_bounds(ks)
     v = t.at(*ks)
